@@ -37,7 +37,7 @@ type packCtx struct {
 }
 
 func isExcludesResult(t types.Type) bool {
-	n, ok := t.(*types.Named)
+	n, ok := types.Unalias(t).(*types.Named)
 	return ok && n.Obj().Name() == "ExcludesResult" && n.Obj().Pkg() != nil && strings.HasSuffix(n.Obj().Pkg().Path(), "/ignorefiles")
 }
 
@@ -133,7 +133,7 @@ func getPackCtx(c *Checker, rule string) *packCtx {
 			if b, ok := prm.Type().Underlying().(*types.Basic); ok && b.Kind() == types.String && w.PathParam == nil {
 				w.PathParam = prm
 			}
-			if n, ok := prm.Type().(*types.Named); ok && n.Obj().Name() == "FileInfo" && w.InfoParam == nil {
+			if n, ok := types.Unalias(prm.Type()).(*types.Named); ok && n.Obj().Name() == "FileInfo" && w.InfoParam == nil {
 				w.InfoParam = prm
 			}
 		}
@@ -213,7 +213,7 @@ func (w *walkInfo) omitReason(p *Prog, r *ssa.Return) string {
 }
 
 func isFileMode(t types.Type) bool {
-	n, ok := t.(*types.Named)
+	n, ok := types.Unalias(t).(*types.Named)
 	return ok && n.Obj().Name() == "FileMode" && n.Obj().Pkg() != nil && n.Obj().Pkg().Path() == "io/fs"
 }
 
